@@ -45,7 +45,7 @@ def import_medit(path):
         
         elif line=="Hexahedra":
             nc = int(data.popleft())
-            parse_field(data, obj.cells, nc, 6)
+            parse_field(data, obj.cells, nc, 8)
 
     return obj
 
